@@ -136,6 +136,59 @@ func TestCheck(t *testing.T) {
 			}
 		}
 	}
+	// every combination of >=2 different aspect edits of the same object (column, index, foreign key):
+	// the differ must report ONE Modify change carrying exactly the union of the kind flags
+	for _, d := range dialects {
+		base := Base(d)
+		groups := map[string][]Site{}
+		var order []string
+		for _, st := range Sites(d, base) {
+			if !ModifyKind(st.E.Kind) {
+				continue
+			}
+			k := st.E.Table + "." + st.E.Obj
+			if _, ok := groups[k]; !ok {
+				order = append(order, k)
+			}
+			groups[k] = append(groups[k], st)
+		}
+		for _, k := range order {
+			g := groups[k]
+			for mask := 1; mask < 1<<len(g); mask++ {
+				var sel []Site
+				for i := range g {
+					if mask&(1<<i) != 0 {
+						sel = append(sel, g[i])
+					}
+				}
+				if len(sel) < 2 {
+					continue
+				}
+				ok := true
+				for i := range sel {
+					for j := i + 1; j < len(sel); j++ {
+						if Conflict(sel[i], sel[j]) {
+							ok = false
+						}
+					}
+				}
+				if !ok {
+					continue
+				}
+				var es []EditRef
+				for _, x := range sel {
+					es = append(es, x.E)
+				}
+				i++
+				if !col.Mine(i) {
+					continue
+				}
+				if !ev.Each(col, "exhaustive-same-object-combos", Case{Dialect: d, Base: base, Level: "schema", Edits: es}, check, known) {
+					return
+				}
+			}
+		}
+	}
 	col.Exhaustive = true
 	col.ExhScope = fmt.Sprintf("single-edit slice: every catalogue edit at every applicable site of the fixed base (%d sites over 3 dialects) x {schema, realm, table} level x {declared order, permuted}", nsites)
 	ev.Rapid(t, col, "random-edit-sets", col.N(9000, 600000), genCase, check, known)
